@@ -96,17 +96,28 @@ pub fn keys_id(k: &SessionKeys) -> String {
     format!("{:x}", fnv64(&v))
 }
 
+/// an epoch>0 Handshake record whose body is exactly one self-consistent unfragmented handshake message was not
+/// sealed (an AEAD output passes this test with probability ~2^-70): the code sends such a record when it reaches
+/// its Finished without keys
+fn looks_clear_hs(body: &[u8]) -> bool {
+    if body.len() < 12 { return false; }
+    let total = ((body[1] as usize) << 16) | ((body[2] as usize) << 8) | body[3] as usize;
+    let off = ((body[6] as usize) << 16) | ((body[7] as usize) << 8) | body[8] as usize;
+    let flen = ((body[9] as usize) << 16) | ((body[10] as usize) << 8) | body[11] as usize;
+    off == 0 && total == flen && 12 + flen == body.len()
+}
+
 pub fn descr_hs(dg: &[u8]) -> Vec<String> {
     parse_records(dg).iter().map(|r| {
         if r.ctype == 23 || r.ctype == 21 {
-            if r.epoch > 0 { format!("{}.{}.{}.{}", r.ctype, r.epoch, r.seq, r.body.len() as i64 - 24) }
+            if r.epoch > 0 { format!("{}.{}.{}.{}{}", r.ctype, r.epoch, r.seq, r.body.len() as i64 - 24, nonce_tag(r)) }
             else { format!("{}.{}.{}.{}", r.ctype, r.epoch, r.seq, r.body.len()) }
-        } else if r.ctype == 22 && r.epoch == 0 {
+        } else if r.ctype == 22 && (r.epoch == 0 || looks_clear_hs(&r.body)) {
             match parse_hs(&r.body).first() {
                 Some(m) => format!("22.{}.{}:{}.{}.{}", r.epoch, r.seq, m.typ, m.seq, m.body.len()),
                 None => format!("22.{}.{}:?", r.epoch, r.seq),
             }
-        } else { format!("{}.{}.{}", r.ctype, r.epoch, r.seq) }
+        } else { format!("{}.{}.{}{}", r.ctype, r.epoch, r.seq, nonce_tag(r)) }
     }).collect()
 }
 
@@ -126,17 +137,22 @@ pub struct Recd {
     /// fragments of the handshake message being reassembled: (message_seq, bytes so far), appended in
     /// arrival order like the code does
     frag: (u16, Vec<u8>),
+    frag2: (u16, Vec<u8>),
     pub ticks_done: u32,
     /// certificates (DER) and verified facts, for the property oracle
     pub shown_cert_fps: Vec<String>,
     pub sig_ok_under: Vec<String>,
+    /// property-level failures seen while recording (clear-text records acted on)
+    pub clear_violations: Vec<String>,
 }
 
 impl Recd {
     pub async fn new(is_client: bool, cert: Certificate, expected: Option<String>) -> Recd {
         let ep = Endpoint::new(is_client, cert, expected.clone()).await;
+        // the key log is keyed by an address: drop whatever an earlier transport at the same address left behind
+        let _ = rustrtc::verif_hooks::dtls::take_keys(ep.dtls.verif_instance_id());
         Recd { ep, expected, ops: vec![], outs: vec![], facts: BTreeMap::new(), keys: vec![], own: vec![], certs_seen: vec![],
-            srs_seen: vec![], last_ske_share: None, frag: (0, vec![]), ticks_done: 0, shown_cert_fps: vec![], sig_ok_under: vec![] }
+            srs_seen: vec![], last_ske_share: None, frag: (0, vec![]), frag2: (0, vec![]), ticks_done: 0, shown_cert_fps: vec![], sig_ok_under: vec![], clear_violations: vec![] }
     }
 
     fn note_sent(&mut self, sent: &[Vec<u8>]) {
@@ -148,7 +164,7 @@ impl Recd {
     fn obs(&mut self, sent: &[Vec<u8>]) -> String {
         let j = |v: Vec<String>| if v.is_empty() { "-".to_string() } else { v.join("+") };
         let delivered = self.ep.drain_app();
-        format!("{},{},{},{}", self.ep.letter(), !self.ep.done as u8, j(delivered.iter().map(|d| hex(d)).collect()),
+        format!("{},{},{},{}", self.ep.state_text(), !self.ep.done as u8, j(delivered.iter().map(|d| hex(d)).collect()),
             j(sent.iter().flat_map(|d| descr_hs(d)).collect()))
     }
 
@@ -176,6 +192,13 @@ impl Recd {
             let Some(p) = payload else { continue };
             for m in parse_hs(&p) {
                 if m.total as usize == m.body.len() { self.learn_body(m.typ, &m.body); continue; }
+                // (a second reassembly that also takes the new tail of a fragment overlapping the buffer)
+                if self.frag2.0 != m.seq || m.off == 0 { self.frag2 = (m.seq, vec![]); }
+                if (m.off as usize) <= self.frag2.1.len() && m.off as usize + m.body.len() > self.frag2.1.len() {
+                    let skip = self.frag2.1.len() - m.off as usize;
+                    self.frag2.1.extend_from_slice(&m.body[skip..]);
+                    if self.frag2.1.len() >= m.total as usize { let b = std::mem::take(&mut self.frag2.1); self.learn_body(m.typ, &b); }
+                }
                 if self.frag.0 != m.seq || m.off == 0 { self.frag = (m.seq, vec![]); }
                 if m.off as usize != self.frag.1.len() { continue; } // only the fragment that continues the buffer counts
                 self.frag.1.extend_from_slice(&m.body);
@@ -256,6 +279,10 @@ impl Recd {
     /// deliver one datagram, run the endpoint to quiescence, record op + observation
     pub async fn inject(&mut self, dg: &[u8], src: SocketAddr) -> Vec<Vec<u8>> {
         self.learn(dg);
+        let (had_keys, before) = (!self.keys.is_empty(), self.ep.letter());
+        let recs = parse_records(dg);
+        let only_clear_app_or_alert = !recs.is_empty() && recs.iter().all(|r| r.epoch == 0 && (r.ctype == 23 || r.ctype == 21));
+        let clear_app = recs.iter().any(|r| r.epoch == 0 && r.ctype == 23);
         self.ep.deliver(dg, src).await;
         let sent = self.ep.pump().await;
         self.note_sent(&sent);
@@ -273,6 +300,13 @@ impl Recd {
         let tbl = self.aead_table(dg);
         self.ops.push(format!("dg,{},{}", hex(dg), tbl));
         let o = self.obs(&sent);
+        // oracle (C03, during the handshake too): clear-text application data is never handed up, and once keys
+        // exist a datagram made only of clear-text ApplicationData / Alert records changes nothing
+        let delivered_any = o.split(',').nth(2).map(|d| d != "-").unwrap_or(false);
+        if clear_app && delivered_any && recs.iter().all(|r| r.epoch == 0) { self.clear_violations.push("rec:handshake-phase:0:23:delivered-unauthenticated".into()); }
+        if had_keys && only_clear_app_or_alert && self.ep.letter() != before {
+            self.clear_violations.push(format!("rec:handshake-phase:0:{}:state-{}-to-{}-unauthenticated", recs[0].ctype, before, self.ep.letter()));
+        }
         self.outs.push(o);
         sent
     }
@@ -288,6 +322,34 @@ impl Recd {
         let o = self.obs(&sent);
         self.outs.push(o);
         sent
+    }
+
+    /// Real time has passed: run the loop now.  A retransmission it made is a `tk` op; its reaching Failed (the
+    /// handshake deadline) a `dl` op.  Returns (retransmissions seen, failed now).
+    pub async fn poll_timers(&mut self) -> (usize, bool) {
+        let was = self.ep.letter();
+        let sent = self.ep.pump().await;
+        self.note_sent(&sent);
+        let now = self.ep.letter();
+        let failed_now = was == 'H' && now == 'F';
+        let mut ticks = 0;
+        if !sent.is_empty() {
+            ticks = 1;
+            self.ticks_done += 1;
+            self.ops.push("tk".into());
+            if failed_now {
+                // interval tick and deadline became due in the same poll; nothing is sent after the deadline,
+                // so the tick came first, in state Handshaking
+                let d: Vec<String> = sent.iter().flat_map(|d| descr_hs(d)).collect();
+                self.outs.push(format!("H,1,-,{}", d.join("+")));
+            } else { let o = self.obs(&sent); self.outs.push(o); }
+        }
+        if failed_now {
+            self.ops.push("dl".into());
+            let o = self.obs(&[]);
+            self.outs.push(o);
+        }
+        (ticks, failed_now)
     }
 
     pub async fn close(&mut self) -> Vec<Vec<u8>> {
